@@ -34,6 +34,7 @@ import time
 import traceback
 
 VERIF = os.path.dirname(os.path.dirname(os.path.abspath(__file__)))
+OUTDIR = os.environ.get("VERIF_OUT", VERIF)  # evidence/ and replays/ go here (self-test runs redirect it)
 REPO = os.environ.get("GWF_VERIF_REPO", "/repo")
 PY = sys.executable
 NPROC = int(os.environ.get("VERIF_JOBS", "0")) or min(16, os.cpu_count() or 4)
@@ -145,6 +146,8 @@ def run_one(mod, case, timeout_s):
     except Inconclusive as e:
         res = Result()
         res.inconclusive = "inconclusive: %s" % e
+    except (SystemExit, KeyboardInterrupt):
+        raise
     except BaseException:  # harness bug: never a verdict about gwf
         res = Result()
         res.inconclusive = "harness exception: " + traceback.format_exc()[-3000:]
@@ -159,6 +162,11 @@ def shard_main(prop, tier, seed, shard, nshards, outpath, ncases, deadline_s):
     mod = load_check(prop)
     b = mod.budget(tier)
     t_end = time.time() + deadline_s
+
+    def _term(signum, frame):  # unwind context managers (temp dirs, worker pools) when the driver stops us
+        raise SystemExit(143)
+
+    signal.signal(signal.SIGTERM, _term)
     with open(outpath, "a") as out:
         for idx in range(shard, ncases, nshards):
             if time.time() > t_end:
@@ -198,7 +206,7 @@ def shard_main(prop, tier, seed, shard, nshards, outpath, ncases, deadline_s):
 
 
 def _write_replay(prop, case, viol, seed, idx, tier):
-    d = os.path.join(VERIF, "replays", prop)
+    d = os.path.join(OUTDIR, "replays", prop)
     os.makedirs(d, exist_ok=True)
     h = stable_hash(case, viol.get("mech"))[:16]
     path = os.path.join(d, h + ".json")
@@ -216,7 +224,7 @@ def _write_replay(prop, case, viol, seed, idx, tier):
             indent=1,
             default=str,
         )
-    return os.path.relpath(path, VERIF)
+    return os.path.relpath(path, VERIF) if OUTDIR == VERIF else path
 
 
 def _sample_trim(obj, limit=6000):
@@ -265,15 +273,47 @@ def drive(prop, tier, seed, jobs=None):
         )
     hard = deadline_s + b.get("case_timeout_s", 60) + 60
     shard_problems = []
+    failfast = os.environ.get("VERIF_FAILFAST")
+    known = known_mechs(prop)
+    pos = {}
+    stopped = False
+    while True:
+        alive = [p for _, _, _, p in procs if p.poll() is None]
+        if not alive:
+            break
+        if time.time() - t0 > hard:
+            for s, outp, errp, p in procs:
+                if p.poll() is None:
+                    p.kill()
+                    shard_problems.append("shard %d exceeded hard deadline" % s)
+            break
+        if failfast and not stopped:
+            for s, outp, errp, p in procs:
+                try:
+                    with open(outp) as f:
+                        f.seek(pos.get(outp, 0))
+                        chunk = f.read()
+                        pos[outp] = f.tell()
+                except FileNotFoundError:
+                    continue
+                for line in chunk.splitlines():
+                    if '"violations": [{' in line:
+                        try:
+                            rec = json.loads(line)
+                        except ValueError:
+                            continue
+                        if any(v["mech"] not in known for v in rec.get("violations", [])):
+                            stopped = True
+            if stopped:
+                for _, _, _, p in procs:
+                    if p.poll() is None:
+                        p.terminate()
+        time.sleep(0.3)
     for s, outp, errp, p in procs:
-        try:
-            rc = p.wait(timeout=max(1, hard - (time.time() - t0)))
-            if rc != 0:
-                with open(errp) as f:
-                    shard_problems.append("shard %d exit %s: %s" % (s, rc, f.read()[-1500:]))
-        except subprocess.TimeoutExpired:
-            p.kill()
-            shard_problems.append("shard %d exceeded hard deadline" % s)
+        rc = p.wait()
+        if rc != 0 and not stopped:
+            with open(errp) as f:
+                shard_problems.append("shard %d exit %s: %s" % (s, rc, f.read()[-1500:]))
 
     results = []
     for s, outp, errp, p in procs:
@@ -396,8 +436,8 @@ def aggregate(mod, prop, tier, seed, results, shard_problems, wall, ncases):
         # do not write a file that would be taken for evidence
         status = "inconclusive" if status == "held" else status
         reason = (reason or "") + " evidence invalid: %s" % problems
-    os.makedirs(os.path.join(VERIF, "evidence"), exist_ok=True)
-    with open(os.path.join(VERIF, "evidence", prop + ".json"), "w") as f:
+    os.makedirs(os.path.join(OUTDIR, "evidence"), exist_ok=True)
+    with open(os.path.join(OUTDIR, "evidence", prop + ".json"), "w") as f:
         json.dump(evidence, f, indent=1, default=str)
 
     print(
